@@ -18,8 +18,10 @@ NoDrift == "NODRIFT" \in DOMAIN IOEnv
 VARIABLES l,      \* next line of the trace
           abs,    \* queue id -> contents map
           con,    \* queue id -> last logged concrete store [keys, pri, heap, qp, size]
-          ord     \* queue id -> TRUE iff the order is specified (FALSE after a leaked iter_mut)
-vars == <<l, abs, con, ord>>
+          ord,    \* queue id -> TRUE iff the order is specified (FALSE after a leaked iter_mut)
+          taint   \* queue ids on which an injected fault was caught (C10): contents, order and length are
+                  \* unspecified from then on; only memory safety (no abort, drop balance) is demanded
+vars == <<l, abs, con, ord, taint>>
 
 e == Rec[l]
 Live(q) == q \in DOMAIN abs
@@ -93,12 +95,43 @@ Adopt(q, tags, expected) ==
   /\ abs' = Upd(abs, q, IF tags = {} THEN expected ELSE SnapOrElse(expected))
   /\ con' = Upd(con, q, ConOrElse(Empty))
 
+\* ------------------------------------------------------------------ faults (C10)
+Injected == "injected" \in DOMAIN e /\ e.injected > 0
+TaintedEv == e.op \notin {"reset", "balance"} /\
+             (Injected \/ e.q \in taint \/ ("src" \in DOMAIN e /\ e.src \in taint) \/ ("o" \in DOMAIN e /\ e.o \in taint))
+FuelOfFault == IF "fault" \notin DOMAIN e THEN Inf
+               ELSE IF "cmp" \in DOMAIN e.fault THEN [Inf EXCEPT !.cmp = e.fault.cmp]
+               ELSE IF "cb" \in DOMAIN e.fault THEN [Inf EXCEPT !.cb = e.fault.cb]
+               ELSE Inf
+ModelledFault == "fault" \in DOMAIN e /\ ("cmp" \in DOMAIN e.fault \/ "cb" \in DOMAIN e.fault)
+\* After a caught injected panic nothing is demanded of the queue but memory safety, which the harness
+\* observes (no abort, drop balance).  The crash-point semantics of the concrete layer are still compared
+\* with what the real unwinding left behind (drift): MCFault's NoUB claim is about that layer.
+StepTainted ==
+  /\ TaintedEv
+  /\ LET q == e.q
+         gone == e.op \in {"drop", "forget_queue"} \/ e.kind = "none"
+         prev == IF e.op = "clone" /\ e.src \in DOMAIN con THEN con[e.src] ELSE IF q \in DOMAIN con THEN con[q] ELSE Empty
+         r == Apply(IF e.op = "convert" THEN Other(e.kind) ELSE e.kind, prev, OpOfEvent, FuelOfFault)
+         cmp == e.hs = 1 /\ ~NoDrift /\ e.op \in Modelled /\ e.op \notin {"from_vec", "from_iter", "de", "roundtrip"}
+                /\ (Injected => ModelledFault) IN
+     /\ (IF ~cmp THEN TRUE
+         ELSE IF r.out = "ub" THEN PrintT(<<"DRIFT", l, e.op, "model_ub_not_observed">>)
+         ELSE IF (r.out = "panic") # (e.panic = 1) THEN PrintT(<<"DRIFT", l, e.op, "crash_outcome", r.out, e.panic>>)
+         ELSE IF r.st # SnapCon(e.snap) THEN PrintT(<<"DRIFT", l, e.op, "crash_state">>)
+         ELSE TRUE)
+     /\ taint' = (IF gone THEN taint \ {q} ELSE taint \cup {q})
+     /\ abs' = (IF gone THEN Del(abs, q) ELSE Upd(abs, q, SnapOrElse(IF q \in DOMAIN abs THEN abs[q] ELSE EmptyMap)))
+     /\ con' = (IF gone THEN Del(con, q) ELSE Upd(con, q, ConOrElse(prev)))
+     /\ ord' = (IF gone THEN Del(ord, q) ELSE Upd(ord, q, FALSE))
+
 StepReset ==
   /\ e.op = "reset"
-  /\ abs' = [x \in {} |-> 0] /\ con' = [x \in {} |-> 0] /\ ord' = [x \in {} |-> TRUE]
+  /\ abs' = [x \in {} |-> 0] /\ con' = [x \in {} |-> 0] /\ ord' = [x \in {} |-> TRUE] /\ taint' = {}
 
 \* creation of a queue: new, from_vec, from_iter, de (JSON), roundtrip (serialize src, deserialize as q)
 StepCreate ==
+  /\ ~TaintedEv
   /\ e.op \in {"new", "from_vec", "from_iter", "de", "roundtrip"}
   /\ LET q == e.q
          ok == e.panic = 0 /\ (e.op \notin {"de", "roundtrip"} \/ e.ret = "ok")
@@ -119,11 +152,13 @@ StepCreate ==
      IN /\ Report(tags, e.kind)
         /\ (IF ok /\ e.op \in {"from_vec", "from_iter", "de"} THEN Drift(ConNew(e.kind))
             ELSE IF ok /\ e.op = "roundtrip" THEN Drift(Apply(e.kind, con[e.src], [op |-> "roundtrip"], Inf)) ELSE TRUE)
+        /\ taint' = taint
         /\ IF ok THEN /\ abs' = Upd(abs, q, res) /\ con' = Upd(con, q, ConOrElse(Empty)) /\ ord' = Upd(ord, q, TRUE)
            ELSE /\ abs' = Del(abs, q) /\ con' = Del(con, q) /\ ord' = Del(ord, q)
 
 \* deserialization from serde tokens: the value is only observed through its snapshot (e.dsnap)
 StepDeTokens ==
+  /\ ~TaintedEv
   /\ e.op = "de_tokens"
   /\ LET tags == IF e.panic = 1 THEN {"panic"}
                  ELSE IF e.ret # "ok" THEN {}
@@ -131,9 +166,10 @@ StepDeTokens ==
                  ELSE (IF SnapOrd(e.dsnap, e.tokkind) THEN {} ELSE {"order"})
                       \cup T(OK_de(e, SnapProj(e.dsnap)), "de_contents")
      IN Report(tags, e.tokkind)
-  /\ UNCHANGED <<abs, con, ord>>
+  /\ UNCHANGED <<abs, con, ord, taint>>
 
 StepClone ==
+  /\ ~TaintedEv
   /\ e.op = "clone"
   /\ LET tags == (IF e.panic = 1 THEN {"panic"} ELSE {})
                  \cup (IF e.panic = 0 /\ e.hs = 1 THEN SnapFails(e.snap, e.kind, abs[e.src], ord[e.src], Empty) ELSE {})
@@ -141,23 +177,26 @@ StepClone ==
      IN /\ Report(Relax(tags \ {"clone_layout"}, e.src), e.kind)
         /\ (IF "clone_layout" \in tags THEN PrintT(<<"DRIFT", l, e.op, "layout">>) ELSE TRUE)
         /\ IF e.panic = 0
-           THEN /\ Adopt(e.q, tags \ {"clone_layout"}, abs[e.src]) /\ ord' = Upd(ord, e.q, ord[e.src])
-           ELSE UNCHANGED <<abs, con, ord>>
+           THEN /\ Adopt(e.q, tags \ {"clone_layout"}, abs[e.src]) /\ ord' = Upd(ord, e.q, ord[e.src]) /\ taint' = taint
+           ELSE UNCHANGED <<abs, con, ord, taint>>
 
 StepDrop ==
+  /\ ~TaintedEv
   /\ e.op \in {"drop", "forget_queue"}
   /\ Report(IF e.panic = 1 THEN {"panic"} ELSE {}, "none")
-  /\ abs' = Del(abs, e.q) /\ con' = Del(con, e.q) /\ ord' = Del(ord, e.q)
+  /\ abs' = Del(abs, e.q) /\ con' = Del(con, e.q) /\ ord' = Del(ord, e.q) /\ taint' = taint
 
 StepEq ==
+  /\ ~TaintedEv
   /\ e.op \in {"eq", "ne"}
   /\ LET same == SameContents(abs[e.q], abs[e.o])
          tags == IF e.panic = 1 THEN {"panic"}
                  ELSE T(e.ret = (IF e.op = "eq" THEN same ELSE ~same), "eq") IN
      Report(tags, e.kind)
-  /\ UNCHANGED <<abs, con, ord>>
+  /\ UNCHANGED <<abs, con, ord, taint>>
 
 StepAppend ==
+  /\ ~TaintedEv
   /\ e.op = "append"
   /\ LET q == e.q  o == e.o
          res  == SnapOrElse(abs[q])
@@ -170,11 +209,12 @@ StepAppend ==
      IN /\ Report(tags, e.kind)
         /\ abs' = Upd(Upd(abs, q, res), o, ores)
         /\ con' = Upd(Upd(con, q, ConOrElse(Empty)), o, IF "osnap" \in DOMAIN e THEN SnapCon(e.osnap) ELSE Empty)
-        /\ ord' = Upd(Upd(ord, q, TRUE), o, TRUE)
+        /\ ord' = Upd(Upd(ord, q, TRUE), o, TRUE) /\ taint' = taint
 
 \* iterator call sequences (engine C): the protocol contract of IterProto.tla, plus the effect on the
 \* queue: drain empties it as soon as it is called, however much is consumed; the others leave the contents
 StepIterCalls ==
+  /\ ~TaintedEv
   /\ e.op \in {"iter_calls", "into_calls"}
   /\ LET q == e.q
          a == abs[q]
@@ -190,15 +230,16 @@ StepIterCalls ==
                        ELSE {})
      IN /\ Report(tags, e.kind)
         /\ IF e.op = "iter_calls"
-           THEN /\ Adopt(q, tags, expected) /\ ord' = Upd(ord, q, ordered)
-           ELSE UNCHANGED <<abs, con, ord>>
+           THEN /\ Adopt(q, tags, expected) /\ ord' = Upd(ord, q, ordered) /\ taint' = taint
+           ELSE UNCHANGED <<abs, con, ord, taint>>
 
 StepBalance ==
   /\ e.op = "balance"
   /\ Report(IF e.queues = 0 /\ (e.live_items # 0 \/ e.live_pris # 0) THEN {"drop_balance"} ELSE {}, "none")
-  /\ UNCHANGED <<abs, con, ord>>
+  /\ UNCHANGED <<abs, con, ord, taint>>
 
 StepOp ==
+  /\ ~TaintedEv
   /\ e.op \notin {"reset", "new", "from_vec", "from_iter", "de", "roundtrip", "de_tokens", "clone", "drop", "forget_queue",
                   "eq", "ne", "append", "iter_calls", "into_calls", "balance"}
   /\ LET q == e.q
@@ -214,11 +255,11 @@ StepOp ==
      IN /\ Report(tags, e.kind)
         /\ (IF e.panic = 0 THEN Drift(ConOp(con[q], e.kind)) ELSE TRUE)
         /\ Adopt(q, tags, j.n)
-        /\ ord' = Upd(ord, q, ordered)
+        /\ ord' = Upd(ord, q, ordered) /\ taint' = taint
 
-Init == l = 1 /\ abs = [x \in {} |-> 0] /\ con = [x \in {} |-> 0] /\ ord = [x \in {} |-> TRUE]
+Init == l = 1 /\ abs = [x \in {} |-> 0] /\ con = [x \in {} |-> 0] /\ ord = [x \in {} |-> TRUE] /\ taint = {}
 Next == /\ l <= Len(Rec) /\ l' = l + 1
-        /\ (StepReset \/ StepCreate \/ StepDeTokens \/ StepClone \/ StepDrop \/ StepEq \/ StepAppend \/ StepIterCalls \/ StepBalance \/ StepOp)
+        /\ (StepReset \/ StepTainted \/ StepCreate \/ StepDeTokens \/ StepClone \/ StepDrop \/ StepEq \/ StepAppend \/ StepIterCalls \/ StepBalance \/ StepOp)
 
 Accepted == IF TLCGet("stats").diameter - 1 = Len(Rec) THEN PrintT(<<"CONSUMED", Len(Rec)>>)
             ELSE Print(<<"STUCK", TLCGet("stats").diameter, Rec[TLCGet("stats").diameter].op>>, FALSE)
